@@ -11,6 +11,8 @@
 (***************************************************************************)
 EXTENDS AdaptiveVR
 
+CONSTANT Small   \* TRUE: only the cases without long values (used for the coverage run)
+
 P(tag, vr, dl, salt) == [k |-> "P", tag |-> tag, vr |-> vr, dl |-> dl, salt |-> salt]
 S(tag, lm, items) == [k |-> "S", tag |-> tag, lm |-> lm, oddc |-> FALSE, items |-> items]
 I(lm, els) == [lm |-> lm, oddc |-> FALSE, els |-> els]
@@ -82,7 +84,7 @@ AllCases == RealPrimCases \cup SeqCases \cup PixCases \cup StrayCases \cup Later
 (* the explicit length of the first sequence in SeqCases is computed, not assumed *)
 FixFirst(c) == IF c.first.vr = "SQ" /\ c.first.len # UNDEF
                THEN [c EXCEPT !.first.len = ItemsSize(c.ds[1].items, c.enc, "exact")] ELSE c
-Cases == {FixFirst(c) : c \in AllCases}
+Cases == {FixFirst(c) : c \in {d \in AllCases : ~Small \/ (d.fam = "first" /\ (d.first.len = UNDEF \/ d.first.len < 1000))}}
 
 CaseBytes(c) == (IF c.stray THEN ItemDelim(c.enc) ELSE <<>>) \o Wire(c.ds, c.enc, "exact")
 (* the tokens the regular decoder of the real encoding reports (positions shifted by a stray delimiter) *)
